@@ -10,6 +10,7 @@ Ops (plain lists):
   ["clef", t, staff, sign, line, octave_change|None]
   ["meas", start, end, number]
   ["note", start, end, staff, id]
+  ["rest", start, end, staff, id]
   ["rm",   i]                          remove the object created by the i-th op (global index)
   ["setq", t, q]                       Part.set_quarter_duration
   ["set",  i, attr, value]             assign an attribute of the object created by the i-th op IN PLACE (no Part.add /
@@ -132,7 +133,7 @@ class State(object):
     def point_times(self):
         ts = set()
         for o in self.live.values():
-            if o[0] in ("meas", "note"):
+            if o[0] in ("meas", "note", "rest"):
                 ts.add(o[1])
                 ts.add(o[2])
             else:
@@ -142,7 +143,7 @@ class State(object):
     def nstaves(self):
         n = 1
         for o in self.live.values():
-            if o[0] == "note" and o[3] is not None:
+            if o[0] in ("note", "rest") and o[3] is not None:
                 n = max(n, o[3])
             if o[0] == "clef" and o[2] is not None:
                 n = max(n, o[2])
@@ -522,6 +523,61 @@ def gen_meas_beyond(Ls, qs, ts_opts, kmax, tails, leads=(0,), tail_kinds=TAIL_KI
                                             continue
                                         maps = ["ts", "meas"] + [k for k in ("ks", "clef") if any(o[0] == k for o in allops)]
                                         yield dict(q=q, maps=maps, phases=[allops], beyond=[g, d])
+
+
+FILL_KINDS = ("both", "notes", "rests")
+
+
+def gen_onsets_outside(Ls, qs, ts_opts, kmax, gds, fills=FILL_KINDS, numberings=("from1",)):
+    """Notes and rests STARTING at positions that lie in no measure: every tiling of g..g+L by <= kmax measures; for
+    every (g, d) in `gds` the timeline begins g divisions before the first barline and goes on d divisions after the final
+    barline E, and an element of one division starts at EVERY position 0..g-1 and E..E+d-1 (so also exactly 1, 2, ...
+    lengths of the last measure after its start, and one length of the first measure before it):
+      fill "notes": a note at each of them   "rests": a rest at each   "both": a note and a rest at each.
+    Inside the measures: a note at every measure start and one position later, a rest at every measure start (fill
+    "rests"/"both") and one position later (fill "both")."""
+    for g, d in gds:
+        if not g and not d:
+            continue
+        for L in Ls:
+            for comp in compositions(L, kmax):
+                bounds = [g]
+                for a in comp:
+                    bounds.append(bounds[-1] + a)
+                E = bounds[-1]
+                outside = list(range(0, g)) + list(range(E, E + d))
+                for q in qs:
+                    for tso in ts_opts:
+                        for nbn in numberings:
+                            nums = NUMBERINGS[nbn](len(comp))
+                            ops = []
+                            if tso is not None:
+                                kind, b, bt = tso
+                                if kind == "at0":
+                                    ops.append(["ts", 0, b, bt])
+                                elif kind == "gap":
+                                    if len(bounds) < 3:
+                                        continue
+                                    ops.append(["ts", bounds[1], b, bt])
+                            meas = [["meas", bounds[i], bounds[i + 1], nums[i]] for i in range(len(comp))]
+                            if nbn == "odd":
+                                meas = meas[::-1]
+                            ops += meas
+                            inside = sorted(set(bounds[:-1] + [b_ + 1 for b_ in bounds[:-1] if b_ + 1 < E]))
+                            for fill in fills:
+                                el = [["note", t, t + 1, 1, "n%d" % t] for t in inside]
+                                if fill != "notes":
+                                    el += [["rest", t, t + 1, 1, "r%d" % t] for t in (inside if fill == "both" else bounds[:-1])]
+                                out = []
+                                if fill != "rests":
+                                    out += [["note", t, t + 1, 1, "n%d" % t] for t in outside]
+                                if fill != "notes":
+                                    out += [["rest", t, t + 1, 1, "r%d" % t] for t in outside]
+                                # the elements outside the measures come first or last in the insertion order
+                                allops = (ops + el + out) if (d + g + L) % 2 else (out[::-1] + ops + el)
+                                if not measures_in_scope(_mk_state(q, allops)):
+                                    continue
+                                yield dict(q=q, maps=["meas"], phases=[allops], beyond=[g, d], fill=fill)
 
 
 def gen_meas_setq(Ls, kmax):
